@@ -75,6 +75,11 @@ def gen_spec(rng):
     if 'res' not in grid:
         if lclass == 'f2':
             grid['num_levels'] = rng.randint(2, 5)
+            if gclass.startswith('global') and rng.random() < 0.3:
+                # the whole default pyramid: at the deep levels of a degree grid a resolution printed with too few digits
+                # moves the tiles far from the origin by many pixels
+                grid['num_levels'] = rng.randint(18, 20)
+                lclass = 'f2_deep'
         elif lclass == 'sqrt2':
             grid['res_factor'] = 'sqrt2'
             grid['num_levels'] = rng.randint(3, 8)
